@@ -178,6 +178,12 @@ pub fn check(c: &ACase, st: &mut Stats) -> Result<(), Fail> {
             Ok(None) => {}
             Err(e) => return Err(fail!("incremental:error", "chunk {i}: {e}")),
         }
+        // the accessors tell the same story as the return values, after every chunk
+        let have = ex.get_fingerprint().map(|g| (g.fingerprint.clone(), g.hash.clone()));
+        let told = reported.as_ref().map(|(_, f, h)| (f.clone(), h.clone()));
+        if ex.fingerprint_extracted() != have.is_some() || have != told {
+            return Err(fail!("incremental:accessors-disagree-with-the-reported-result", "after chunk {i}: add_bytes has reported {:?}, fingerprint_extracted {}, get_fingerprint {:?}", told, ex.fingerprint_extracted(), have));
+        }
     }
     if zero_first {
         return Ok(());
